@@ -931,7 +931,8 @@ fn write_zeros_contract() {
 // mounting (C07, C13)
 // ------------------------------------------------------------------------------------------------
 
-// @obl props=C05,C07,C12,C13 tier=thorough timeout=3000 fns=FileSystem::new,FsInfoSector::deserialize,FsInfoSector::validate_and_fix
+// (not registered as an obligation: did not finish within 7 minutes; kept for reference)
+// obl-disabled fns=FileSystem::new
 // @bound bounded: the FAT32 fixture geometry (concrete valid boot sector built with the real serializer); the status byte and the FS-info count / hint are symbolic
 // @desc mounting a valid FAT32 volume, for every status byte and every stored free count / next-free hint: Ok; no device write; the FS-info write-back latch is CLEAR (a read-only session that ends in unmount therefore writes nothing); the stored count is dropped when the dirty bit is set or it exceeds the cluster count; the hint is dropped outside [2, total+2]; the in-memory flags are the decoded status byte
 #[kani::proof]
@@ -975,7 +976,8 @@ fn new_on_valid_fat32() {
     core::mem::forget(fs);
 }
 
-// @obl props=C07,C13,C05 tier=thorough fns=FileSystem::new,BootSector::deserialize,BootSector::validate,FsInfoSector::deserialize,FsInfoSector::validate_and_fix timeout=3000
+// (not registered as an obligation: did not finish within 7 minutes; kept for reference)
+// obl-disabled fns=FileSystem::new
 // @desc FileSystem::new over a write-forbidden device that returns ARBITRARY bytes for the boot sector and the FS-info sector, strict and non-strict: returns Ok or Err(CorruptedFileSystem) (no fault is injected), never panics or overflows, never writes; on Ok the volume geometry satisfies wf_bpb, the cached FAT type / first data sector / root sectors / cluster count are the derived ones, the FS-info write-back latch is clear, the cached free count is dropped if the dirty bit was set and otherwise <= total clusters, the hint lies in [2, total+2], and the in-memory status flags equal the mount-time byte
 #[kani::proof]
 #[kani::unwind(14)]
